@@ -342,6 +342,9 @@ class Case:
                         if c:
                             self.emit(c)
                 op = "dispatch"
+                # now and then the turns are run by block_on (a future that wakes itself): each turn is a dispatch
+                if r.random() < self.p.get("blockon", 0.08):
+                    op = "blockon %d" % r.randrange(2, 5)
             elif x < 0.5:
                 op = self.cause_op()
             elif x < 0.68:
@@ -364,7 +367,7 @@ class Case:
                 op = self.misc_op()
             if op:
                 self.emit(op)
-                since_dispatch = 0 if op == "dispatch" else since_dispatch + 1
+                since_dispatch = 0 if op == "dispatch" or op.startswith("blockon") else since_dispatch + 1
         self.emit("dispatch")
         if r.random() < 0.5:
             self.emit("dispatch")
@@ -378,7 +381,7 @@ PROFILES = {
     "lifecycle": {"kinds": ["customlife", "customlife", "custom", "ping", "gen"], "fail_rate": 0.3},
     "fd": {"kinds": ["gen", "gen", "ping", "chan", "custom"], "max_sources": 8},
     "failures": {"kinds": ["custom", "customlife", "gen", "gen", "ping", "timer"], "fail_rate": 0.6, "malformed": 0.3},
-    "idles": {"kinds": ["ping", "chan", "timer"], "cb_ops": 0.8, "idle_scripts": 0.9, "idle_burst": 0.35, "misc_idle": 0.6},
+    "idles": {"kinds": ["ping", "chan", "timer"], "cb_ops": 0.8, "idle_scripts": 0.9, "idle_burst": 0.35, "misc_idle": 0.6, "blockon": 0.25},
     "reentrant": {"kinds": KINDS, "cb_ops": 1.0, "script_rate": 0.95},
 }
 
